@@ -24,6 +24,16 @@ Proof. destruct a, b; simpl; try congruence; try reflexivity. apply Qltb_asym. Q
 Lemma xltb_ntrans a b c : xltb a b = false -> xltb b c = false -> xltb a c = false.
 Proof. destruct a, b, c; simpl; try congruence; try reflexivity. apply Qltb_ntrans. Qed.
 
+Lemma vltb_asym a b : vltb a b = true -> vltb b a = false.
+Proof. destruct a, b; simpl; try congruence; try reflexivity. apply Qltb_asym. Qed.
+Lemma vltb_ntrans a b c : vltb a b = false -> vltb b c = false -> vltb a c = false.
+Proof. destruct a, b, c; simpl; try congruence; try reflexivity. apply Qltb_ntrans. Qed.
+Lemma vltb_irrefl a : vltb a a = false.
+Proof. destruct (vltb a a) eqn:E; [|reflexivity]. rewrite (vltb_asym _ _ E) in E. discriminate. Qed.
+(* a < b <= c gives a < c *)
+Lemma vltb_lt_le_trans a b c : vltb a b = true -> vltb c b = false -> vltb a c = true.
+Proof. intros H1 H2. destruct (vltb a c) eqn:E; [reflexivity|]. rewrite (vltb_ntrans _ _ _ E H2) in H1. discriminate. Qed.
+
 Lemma Qminb_le_l a b : Qminb a b <= a.
 Proof. unfold Qminb. destruct (Qle_bool a b) eqn:E; [apply Qle_refl|]. apply Qlt_le_weak, Qltb_lt. unfold Qltb. rewrite E. reflexivity. Qed.
 Lemma Qminb_le_r a b : Qminb a b <= b.
@@ -152,6 +162,16 @@ Proof.
   split; [exact H1|]. split.
   - intros k Hk. apply Qltb_ge. apply H2. exact Hk.
   - intros k Hk. apply Qltb_lt. apply H3. exact Hk.
+Qed.
+
+Lemma vargmin_first l : l <> [] ->
+  let r := vargmin l in
+  (r < length l)%nat /\ (forall k, (k < length l)%nat -> vle (nth r l PInf) (nth k l PInf)) /\
+  (forall k, (k < r)%nat -> vlt (nth r l PInf) (nth k l PInf)).
+Proof.
+  intros Hne. apply (argbest_first (fun x best => vltb x best)); [| |exact Hne].
+  - intros x y. apply vltb_asym.
+  - intros x y z H1 H2. eapply vltb_ntrans; eassumption.
 Qed.
 
 (* ------------------------------------------------------------------ list helpers *)
@@ -488,21 +508,21 @@ Qed.
 
 (* ------------------------------------------------------------------ the per-cluster strict-< scan *)
 Section Scan.
-Variable values : list Q.
+Variable values : list xv.
 Variable part : list nat.
 Variable k : nat.
 Hypothesis part_lt : forall t, (t < length part)%nat -> (nth t part O < k)%nat.
-Let v (t : nat) : Q := nth t values 0.
+Let v (t : nat) : xv := nth t values PInf.
 
 (* after the first m observations: entry c holds the first minimum of the values over the members of cluster c *)
-Definition scan_inv (m : nat) (st : list (option (nat * Q))) : Prop :=
+Definition scan_inv (m : nat) (st : list (option (nat * xv))) : Prop :=
   length st = k /\
   forall c, (c < k)%nat ->
     match nth c st None with
     | None => forall t, (t < m)%nat -> nth t part O <> c
     | Some (b, x) => (b < m)%nat /\ nth b part O = c /\ x = v b /\
-                     (forall t, (t < m)%nat -> nth t part O = c -> x <= v t) /\
-                     (forall t, (t < b)%nat -> nth t part O = c -> x < v t)
+                     (forall t, (t < m)%nat -> nth t part O = c -> vle x (v t)) /\
+                     (forall t, (t < b)%nat -> nth t part O = c -> vlt x (v t))
     end.
 
 Lemma scan_step_inv m st : (m < length part)%nat -> scan_inv m st -> scan_inv (S m) (scan_step values st (m, nth m part O)).
@@ -513,8 +533,8 @@ Proof.
             match nth c st None with
             | None => forall t, (t < S m)%nat -> nth t part O <> c
             | Some (b, x) => (b < S m)%nat /\ nth b part O = c /\ x = v b /\
-                             (forall t, (t < S m)%nat -> nth t part O = c -> x <= v t) /\
-                             (forall t, (t < b)%nat -> nth t part O = c -> x < v t)
+                             (forall t, (t < S m)%nat -> nth t part O = c -> vle x (v t)) /\
+                             (forall t, (t < b)%nat -> nth t part O = c -> vlt x (v t))
             end).
   { intros c Hc Hcp. specialize (Hinv c Hc). destruct (nth c st None) as [[b x]|].
     - destruct Hinv as (H1 & H2 & H3 & H4 & H5). repeat split; try assumption; [lia|].
@@ -522,18 +542,18 @@ Proof.
     - intros t Ht. destruct (Nat.eq_dec t m) as [->|Hne]; [fold p; congruence|apply Hinv; lia]. }
   assert (Hnew : forall st', length st' = k ->
             (forall c, nth c st' None = if Nat.eqb c p then Some (m, v m) else nth c st None) ->
-            (forall t, (t < m)%nat -> nth t part O = p -> v m < v t) -> scan_inv (S m) st').
+            (forall t, (t < m)%nat -> nth t part O = p -> vlt (v m) (v t)) -> scan_inv (S m) st').
   { intros st' Hl' Hn Hlt. split; [exact Hl'|]. intros c Hc. rewrite Hn. destruct (Nat.eqb c p) eqn:E.
     - apply Nat.eqb_eq in E. subst c. repeat split; [lia| |].
-      + intros t Ht Htp. destruct (Nat.eq_dec t m) as [->|Hne]; [apply Qle_refl|]. apply Qlt_le_weak. apply Hlt; [lia|exact Htp].
+      + intros t Ht Htp. destruct (Nat.eq_dec t m) as [->|Hne]; [apply vltb_irrefl|]. apply vltb_asym. apply Hlt; [lia|exact Htp].
       + intros t Ht Htp. apply Hlt; assumption.
     - apply Nat.eqb_neq in E. apply Hkeep; assumption. }
   pose proof (Hinv p Hp) as Hpinv.
   destruct (nth p st None) as [[b x]|] eqn:Ep.
-  - destruct Hpinv as (H1 & H2 & H3 & H4 & H5). destruct (Qltb (v m) x) eqn:Ex.
-    + apply Qltb_lt in Ex. apply Hnew; [rewrite set_nth_length; exact Hl|intros c; apply nth_set_nth; lia|].
-      intros t Ht Htp. eapply Qlt_le_trans; [exact Ex|apply H4; assumption].
-    + apply Qltb_ge in Ex. split; [exact Hl|]. intros c Hc. destruct (Nat.eq_dec c p) as [->|Hne]; [|apply Hkeep; assumption].
+  - destruct Hpinv as (H1 & H2 & H3 & H4 & H5). destruct (vltb (v m) x) eqn:Ex.
+    + apply Hnew; [rewrite set_nth_length; exact Hl|intros c; apply nth_set_nth; lia|].
+      intros t Ht Htp. exact (vltb_lt_le_trans _ _ _ Ex (H4 t Ht Htp)).
+    + split; [exact Hl|]. intros c Hc. destruct (Nat.eq_dec c p) as [->|Hne]; [|apply Hkeep; assumption].
       rewrite Ep. repeat split; try assumption; [lia|].
       intros t Ht Htp. destruct (Nat.eq_dec t m) as [->|Hne]; [exact Ex|apply H4; [lia|exact Htp]].
   - apply Hnew; [rewrite set_nth_length; exact Hl|intros c; apply nth_set_nth; lia|].
@@ -563,7 +583,7 @@ Lemma cluster_scan_inv : scan_inv (length part) (cluster_scan values part k).
 Proof. unfold cluster_scan. apply scan_gen; [exact scan_init|reflexivity|intros j Hj; reflexivity]. Qed.
 End Scan.
 
-Lemma flat_somes : forall (st : list (option (nat * Q))),
+Lemma flat_somes : forall (st : list (option (nat * xv))),
   (forall c, (c < length st)%nat -> nth c st None <> None) ->
   flat_map (fun o => match o with Some (i, _) => [i] | None => [] end) st =
   map (fun o => match o with Some (i, _) => i | None => O end) st.
@@ -577,19 +597,19 @@ Qed.
 Theorem best_assignments_spec values spts k :
   length values = length spts -> (2 <= k < length spts)%nat ->
   exists cs part best,
-    k_center spts (qargmin values) k = Some (cs, part) /\
+    k_center spts (vargmin values) k = Some (cs, part) /\
     best_assignments values spts k = Some best /\
     length best = k /\ NoDup best /\ (forall i, In i best -> (i < length spts)%nat) /\
-    hd O best = qargmin values /\
+    hd O best = vargmin values /\
     forall c, (c < k)%nat ->
       let b := nth c best O in
       nth b part O = c /\
-      (forall t, (t < length spts)%nat -> nth t part O = c -> nth b values 0 <= nth t values 0) /\
-      (forall t, (t < b)%nat -> nth t part O = c -> nth b values 0 < nth t values 0).
+      (forall t, (t < length spts)%nat -> nth t part O = c -> vle (nth b values PInf) (nth t values PInf)) /\
+      (forall t, (t < b)%nat -> nth t part O = c -> vlt (nth b values PInf) (nth t values PInf)).
 Proof.
   intros Hlv [Hk2 Hkn]. set (n := length spts) in *.
   assert (Hvne : values <> []) by (intros E; rewrite E in Hlv; simpl in Hlv; lia).
-  destruct (qargmin_first values Hvne) as (Hf & Hfmin & Hffirst). set (f := qargmin values) in *.
+  destruct (vargmin_first values Hvne) as (Hf & Hfmin & Hffirst). set (f := vargmin values) in *.
   rewrite Hlv in Hf, Hfmin.
   destruct (k_center spts f k) as [[cs part]|] eqn:Ekc; [|exfalso; revert Ekc; apply k_center_total; unfold n in *; lia].
   destruct (k_center_centres spts f k cs part Ekc) as (Hcl & Hhd & Hnd & Hin & _).
@@ -604,7 +624,7 @@ Proof.
   assert (Hsome : forall c, (c < k)%nat -> exists b x, nth c st None = Some (b, x)).
   { intros c Hc. specialize (Hinv c Hc). destruct (nth c st None) as [[b x]|]; [eauto|].
     exfalso. destruct (Hown c Hc) as [H1 H2]. apply (Hinv _ H1 H2). }
-  set (proj := fun o : option (nat * Q) => match o with Some (i, _) => i | None => O end).
+  set (proj := fun o : option (nat * xv) => match o with Some (i, _) => i | None => O end).
   assert (Hflat : flat_map (fun o => match o with Some (i, _) => [i] | None => [] end) st = map proj st).
   { apply flat_somes. intros c Hc. rewrite Hsl in Hc. destruct (Hsome c Hc) as (b & x & E). rewrite E. discriminate. }
   set (best := map proj st).
@@ -614,8 +634,8 @@ Proof.
   assert (Hspec : forall c, (c < k)%nat ->
             let b := nth c best O in
             (b < n)%nat /\ nth b part O = c /\
-            (forall t, (t < n)%nat -> nth t part O = c -> nth b values 0 <= nth t values 0) /\
-            (forall t, (t < b)%nat -> nth t part O = c -> nth b values 0 < nth t values 0)).
+            (forall t, (t < n)%nat -> nth t part O = c -> vle (nth b values PInf) (nth t values PInf)) /\
+            (forall t, (t < b)%nat -> nth t part O = c -> vlt (nth b values PInf) (nth t values PInf))).
   { intros c Hc. cbv zeta. rewrite (Hnb c Hc). specialize (Hinv c Hc). destruct (Hsome c Hc) as (b & x & E).
     rewrite E in *. cbn [proj]. destruct Hinv as (H1 & H2 & H3 & H4 & H5). subst x. repeat split; assumption. }
   assert (Hndb : NoDup best).
@@ -638,8 +658,8 @@ Proof.
       assert (Hfp : nth f part O = O).
       { apply (proj1 (proj2 (Hpart f Hf)) O ltac:(lia)). destruct cs; [simpl in Hcl; lia|exact Hhd]. }
       destruct (Nat.lt_trichotomy b f) as [L|[L|L]]; [|exact L|].
-      * exfalso. pose proof (Hffirst b L) as H1. pose proof (Hbmin f Hf Hfp) as H2. apply (Qlt_not_le _ _ H1 H2).
-      * exfalso. pose proof (Hbfirst f L Hfp) as H1. pose proof (Hfmin b Hb) as H2. apply (Qlt_not_le _ _ H1 H2).
+      * exfalso. pose proof (Hffirst b L) as H1. pose proof (Hbmin f Hf Hfp) as H2. unfold vlt, vle in H1, H2. congruence.
+      * exfalso. pose proof (Hbfirst f L Hfp) as H1. pose proof (Hfmin b Hb) as H2. unfold vlt, vle in H1, H2. congruence.
     + intros c Hc. destruct (Hspec c Hc) as (H1 & H2 & H3 & H4). cbv zeta. repeat split; assumption.
 Qed.
 
@@ -659,28 +679,32 @@ Proof.
   - destruct (scale_mid (q :: l)). rewrite map_length, combine_length. lia.
 Qed.
 
+Lemma masked_values_length scaled fails : length fails = length scaled -> length (masked_values scaled fails) = length scaled.
+Proof. intros Hl. unfold masked_values. rewrite map_length, combine_length. lia. Qed.
+
 Theorem view_spec cs tgt points vals fails maximize k ohs :
   all_some (map (to_one_hot cs) points) = Some ohs ->
   length vals = length points -> length fails = length points -> (2 <= k < length points)%nat ->
-  let sv := scaled_values maximize vals fails in
+  let mv := masked_values (scaled_values maximize vals fails) fails in
   let spts := map (search_point cs tgt) ohs in
   exists centres part best,
-    k_center spts (qargmin sv) k = Some (centres, part) /\
+    k_center spts (vargmin mv) k = Some (centres, part) /\
     view cs tgt points vals fails maximize k = Some best /\
     length best = k /\ NoDup best /\ (forall i, In i best -> (i < length points)%nat) /\
-    hd O best = qargmin sv /\
+    hd O best = vargmin mv /\
     forall c, (c < k)%nat ->
       let b := nth c best O in
       nth b part O = c /\
-      (forall t, (t < length points)%nat -> nth t part O = c -> nth b sv 0 <= nth t sv 0) /\
-      (forall t, (t < b)%nat -> nth t part O = c -> nth b sv 0 < nth t sv 0).
+      (forall t, (t < length points)%nat -> nth t part O = c -> vle (nth b mv PInf) (nth t mv PInf)) /\
+      (forall t, (t < b)%nat -> nth t part O = c -> vlt (nth b mv PInf) (nth t mv PInf)).
 Proof.
-  intros Hoh Hlv Hlf Hk sv spts.
+  intros Hoh Hlv Hlf Hk mv spts.
   assert (Hn : length spts = length points).
   { unfold spts. rewrite map_length, (all_some_length _ _ Hoh), map_length. reflexivity. }
-  assert (Hsv : length sv = length spts) by (unfold sv; rewrite scaled_values_length; lia).
-  destruct (best_assignments_spec sv spts k Hsv ltac:(lia)) as (centres & part & best & H1 & H2 & H3 & H4 & H5 & H6 & H7).
-  exists centres, part, best. rewrite Hn in *. unfold view. rewrite Hoh. fold sv spts.
+  assert (Hsv : length mv = length spts).
+  { unfold mv. rewrite masked_values_length; rewrite scaled_values_length; lia. }
+  destruct (best_assignments_spec mv spts k Hsv ltac:(lia)) as (centres & part & best & H1 & H2 & H3 & H4 & H5 & H6 & H7).
+  exists centres, part, best. rewrite Hn in *. unfold view. rewrite Hoh. fold mv spts.
   repeat split; try assumption; apply H7; assumption.
 Qed.
 
@@ -858,165 +882,216 @@ Proof.
     split; [apply lmin_le|apply lmax_ge]; exact Hin.
 Qed.
 
-(* (1) the first minimum of the scaled values *)
-Theorem first_min_scaled_is_best_raw (maximize : bool) vals fails :
-  length fails = length vals ->
-  let nf := select (map negb fails) vals in
-  nf <> [] ->
-  let sv := scaled_values maximize vals fails in
-  let lie := if maximize then lmin nf else lmax nf in
-  let bestv := if maximize then lmax nf else lmin nf in
-  let b := qargmin sv in
-  (b < length vals)%nat /\
-  (exists t, (t < length vals)%nat /\ nth t fails true = false /\ nth t vals 0 == bestv) /\
-  (forall t, (t < length vals)%nat -> nth t fails true = false ->
-     if maximize then lie <= nth t vals 0 <= bestv else bestv <= nth t vals 0 <= lie) /\
-  (if nth b fails false then lie else nth b vals 0) == bestv /\
-  (nth b fails false = true ->
-     lie == bestv /\
-     forall t u, (t < length vals)%nat -> (u < length vals)%nat -> nth t fails true = false -> nth u fails true = false ->
-       nth t vals 0 == nth u vals 0) /\
-  ((exists t u, (t < length vals)%nat /\ (u < length vals)%nat /\ nth t fails true = false /\ nth u fails true = false /\
-                ~ nth t vals 0 == nth u vals 0) ->
-     nth b fails true = false /\ nth b vals 0 == bestv /\
-     forall t, (t < b)%nat -> nth t fails true = false ->
-       if maximize then nth t vals 0 < nth b vals 0 else nth b vals 0 < nth t vals 0).
+(* ------------------------------------------------------------------ the values the view compares: +inf for failures *)
+Lemma nth_masked scaled fails t : length fails = length scaled -> (t < length scaled)%nat ->
+  nth t (masked_values scaled fails) PInf = if nth t fails false then PInf else Val (nth t scaled 0).
 Proof.
-  intros Hl nf Hne sv lie bestv b.
-  assert (Hsl : length sv = length vals) by (apply scaled_values_length; lia).
-  assert (Hsne : sv <> []).
-  { intros E. rewrite E in Hsl. destruct vals; [|discriminate]. destruct fails; [|discriminate]. apply Hne. reflexivity. }
-  destruct (qargmin_first sv Hsne) as (Hb & Hmin & Hfirst). fold b in Hb, Hmin, Hfirst. rewrite Hsl in Hb, Hmin.
-  assert (Hsucc : forall t, (t < length vals)%nat -> nth t fails true = false -> lmin nf <= nth t vals 0 <= lmax nf).
-  { intros t Ht Hf. assert (Hin : In (nth t vals 0) nf) by (apply In_select_success; exists t; auto).
-    split; [apply lmin_le|apply lmax_ge]; exact Hin. }
-  assert (Hbest : exists t, (t < length vals)%nat /\ nth t fails true = false /\ nth t vals 0 = bestv).
-  { apply In_select_success. unfold bestv. destruct maximize; [apply lmax_In|apply lmin_In]; exact Hne. }
-  assert (Hwb : (if nth b fails false then lie else nth b vals 0) == bestv).
-  { destruct Hbest as (t & Ht & Hf & Hv).
-    pose proof (proj1 (scaled_le_iff maximize vals fails b t Hl Hne Hb Ht) (Hmin t Ht)) as H.
-    pose proof (raw_behind_range maximize vals fails b Hl Hne Hb) as R. fold nf in R.
-    assert (Et : raw_behind maximize vals fails t = bestv).
-    { unfold raw_behind. rewrite <- nth_fails_default by lia. rewrite Hf. exact Hv. }
-    rewrite Et in H. change (if nth b fails false then lie else nth b vals 0) with (raw_behind maximize vals fails b).
-    unfold bestv in *. destruct maximize; lra. }
-  assert (Htie : nth b fails false = true -> lie == bestv) by (intros Ef; rewrite Ef in Hwb; exact Hwb).
-  assert (Hall : lie == bestv -> forall t u, (t < length vals)%nat -> (u < length vals)%nat ->
-            nth t fails true = false -> nth u fails true = false -> nth t vals 0 == nth u vals 0).
-  { intros E t u Ht Hu Hft Hfu. pose proof (Hsucc t Ht Hft) as R1. pose proof (Hsucc u Hu Hfu) as R2.
-    unfold lie, bestv in E. destruct maximize; lra. }
-  split; [exact Hb|]. split; [destruct Hbest as (t & H1 & H2 & H3); exists t; rewrite H3; repeat split; auto; reflexivity|].
-  split; [intros t Ht Hf; pose proof (Hsucc t Ht Hf) as R; unfold lie, bestv; destruct maximize; exact R|].
-  split; [exact Hwb|]. split; [intros Ef; split; [apply Htie; exact Ef|apply Hall, Htie; exact Ef]|].
-  intros (t & u & Ht & Hu & Hft & Hfu & Hd).
-  assert (Ef : nth b fails false = false).
-  { destruct (nth b fails false) eqn:Ef; [|reflexivity]. exfalso. apply Hd. apply (Hall (Htie eq_refl)); assumption. }
-  split; [rewrite nth_fails_default by lia; exact Ef|]. rewrite Ef in Hwb. split; [exact Hwb|].
-  intros t' Ht' Hf'.
-  pose proof (proj1 (scaled_lt_iff maximize vals fails b t' Hl Hne Hb ltac:(lia)) (Hfirst t' Ht')) as H.
-  unfold raw_behind in H. rewrite Ef in H. rewrite <- (nth_fails_default fails t') in H by lia. rewrite Hf' in H. exact H.
+  intros Hl Ht. unfold masked_values. rewrite (nth_map_combine _ 0 false PInf) by assumption. reflexivity.
 Qed.
 
-(* (2) any index b whose scaled value is the first minimum over a set P of observations (a cluster) *)
-Theorem set_min_scaled_is_best_raw (maximize : bool) vals fails (P : nat -> Prop) (b : nat) :
-  length fails = length vals ->
-  let nf := select (map negb fails) vals in
-  nf <> [] ->
-  let sv := scaled_values maximize vals fails in
-  let lie := if maximize then lmin nf else lmax nf in
+Section Masked.
+Variable maximize : bool.
+Variable vals : list Q.
+Variable fails : list bool.
+Hypothesis Hl : length fails = length vals.
+Let nf := select (map negb fails) vals.
+Hypothesis Hne : nf <> [].
+Let sv := scaled_values maximize vals fails.
+Let mv := masked_values sv fails.
+Let m (t : nat) : xv := nth t mv PInf.
+
+Lemma sv_length : length sv = length vals.
+Proof. unfold sv. apply scaled_values_length. lia. Qed.
+
+Lemma m_failed t : (t < length vals)%nat -> nth t fails false = true -> m t = PInf.
+Proof. intros Ht Ef. unfold m, mv. rewrite nth_masked by (rewrite sv_length; assumption). rewrite Ef. reflexivity. Qed.
+
+Lemma m_success t : (t < length vals)%nat -> nth t fails true = false -> m t = Val (nth t sv 0).
+Proof.
+  intros Ht Ef. unfold m, mv. rewrite nth_masked by (rewrite sv_length; assumption).
+  rewrite <- nth_fails_default by lia. rewrite Ef. reflexivity.
+Qed.
+
+Lemma success_or_failed t : (t < length vals)%nat -> nth t fails true = false \/ nth t fails false = true.
+Proof. intros Ht. rewrite (nth_fails_default fails t) by lia. destruct (nth t fails false); auto. Qed.
+
+Lemma raw_behind_success t : (t < length vals)%nat -> nth t fails true = false -> raw_behind maximize vals fails t = nth t vals 0.
+Proof. intros Ht Ef. unfold raw_behind. rewrite <- nth_fails_default by lia. rewrite Ef. reflexivity. Qed.
+
+(* between two successes the comparison the view makes IS the comparison of the raw values for the objective *)
+Lemma m_lt_success t u : (t < length vals)%nat -> (u < length vals)%nat -> nth t fails true = false -> nth u fails true = false ->
+  (vlt (m t) (m u) <-> if maximize then nth u vals 0 < nth t vals 0 else nth t vals 0 < nth u vals 0).
+Proof.
+  intros Ht Hu Et Eu. unfold vlt. rewrite (m_success t Ht Et), (m_success u Hu Eu). cbn [vltb]. rewrite Qltb_lt.
+  pose proof (scaled_lt_iff maximize vals fails t u Hl Hne Ht Hu) as H. fold sv in H.
+  rewrite (raw_behind_success t Ht Et), (raw_behind_success u Hu Eu) in H. exact H.
+Qed.
+Lemma m_le_success t u : (t < length vals)%nat -> (u < length vals)%nat -> nth t fails true = false -> nth u fails true = false ->
+  (vle (m t) (m u) <-> if maximize then nth u vals 0 <= nth t vals 0 else nth t vals 0 <= nth u vals 0).
+Proof.
+  intros Ht Hu Et Eu. unfold vle. rewrite (m_success t Ht Et), (m_success u Hu Eu). cbn [vltb]. rewrite Qltb_ge.
+  pose proof (scaled_le_iff maximize vals fails t u Hl Hne Ht Hu) as H. fold sv in H.
+  rewrite (raw_behind_success t Ht Et), (raw_behind_success u Hu Eu) in H. exact H.
+Qed.
+(* a success is strictly before every failure; nothing is strictly after a failure *)
+Lemma m_success_lt_failed t u : (t < length vals)%nat -> (u < length vals)%nat -> nth t fails true = false -> nth u fails false = true ->
+  vlt (m t) (m u).
+Proof. intros Ht Hu Et Eu. unfold vlt. rewrite (m_success t Ht Et), (m_failed u Hu Eu). reflexivity. Qed.
+Lemma m_failed_not_lt t x : (t < length vals)%nat -> nth t fails false = true -> ~ vlt (m t) x.
+Proof. intros Ht Et. unfold vlt. rewrite (m_failed t Ht Et). simpl. discriminate. Qed.
+Lemma m_le_failed_is_failed b t : (b < length vals)%nat -> (t < length vals)%nat -> nth b fails false = true -> vle (m b) (m t) ->
+  nth t fails false = true.
+Proof.
+  intros Hb Ht Eb H. destruct (success_or_failed t Ht) as [Et|Et]; [|exact Et].
+  exfalso. pose proof (m_success_lt_failed t b Ht Hb Et Eb) as L. unfold vlt, vle in *. congruence.
+Qed.
+
+(* (1) the first minimum of the compared values: the first centre, the first returned index *)
+Theorem first_min_is_best_success :
+  let bestv := if maximize then lmax nf else lmin nf in
+  let b := vargmin mv in
+  (b < length vals)%nat /\ nth b fails true = false /\ nth b vals 0 == bestv /\
+  (forall t, (t < length vals)%nat -> nth t fails true = false ->
+     if maximize then nth t vals 0 <= nth b vals 0 else nth b vals 0 <= nth t vals 0) /\
+  (forall t, (t < b)%nat -> nth t fails true = false ->
+     if maximize then nth t vals 0 < nth b vals 0 else nth b vals 0 < nth t vals 0).
+Proof.
+  intros bestv b.
+  assert (Hml : length mv = length vals) by (unfold mv; rewrite masked_values_length; rewrite sv_length; lia).
+  assert (Hmne : mv <> []).
+  { intros E. rewrite E in Hml. destruct vals; [|discriminate]. destruct fails; [|discriminate]. apply Hne. reflexivity. }
+  destruct (vargmin_first mv Hmne) as (Hb & Hmin & Hfirst). fold b in Hb, Hmin, Hfirst. rewrite Hml in Hb, Hmin.
+  fold (m b) in Hmin, Hfirst.
+  assert (Hbest : exists t, (t < length vals)%nat /\ nth t fails true = false /\ nth t vals 0 = bestv).
+  { apply In_select_success. unfold bestv. fold nf. destruct maximize; [apply lmax_In|apply lmin_In]; exact Hne. }
+  assert (Eb : nth b fails true = false).
+  { destruct (success_or_failed b Hb) as [E|E]; [exact E|]. exfalso. destruct Hbest as (t & Ht & Et & _).
+    pose proof (Hmin t Ht) as H. fold (m t) in H. pose proof (m_success_lt_failed t b Ht Hb Et E) as L.
+    unfold vlt, vle in *. congruence. }
+  assert (Hall : forall t, (t < length vals)%nat -> nth t fails true = false ->
+            if maximize then nth t vals 0 <= nth b vals 0 else nth b vals 0 <= nth t vals 0).
+  { intros t Ht Et. apply (proj1 (m_le_success b t Hb Ht Eb Et)). apply Hmin. exact Ht. }
+  split; [exact Hb|]. split; [exact Eb|]. split; [|split; [exact Hall|]].
+  - destruct Hbest as (t & Ht & Et & Ev). pose proof (Hall t Ht Et) as H. rewrite Ev in H.
+    assert (Hin : In (nth b vals 0) nf) by (apply In_select_success; exists b; auto).
+    pose proof (lmin_le nf _ Hin) as R1. pose proof (lmax_ge nf _ Hin) as R2.
+    unfold bestv in *. destruct maximize; lra.
+  - intros t Ht Et. apply (proj1 (m_lt_success b t Hb ltac:(lia) Eb Et)). apply Hfirst. exact Ht.
+Qed.
+
+(* (2) any index b whose compared value is the first minimum over a set P of observations (a cluster) *)
+Theorem set_min_is_best_success (P : nat -> Prop) (b : nat) :
   (b < length vals)%nat ->
-  (forall t, (t < length vals)%nat -> P t -> nth b sv 0 <= nth t sv 0) ->
-  (forall t, (t < b)%nat -> P t -> nth b sv 0 < nth t sv 0) ->
+  (forall t, (t < length vals)%nat -> P t -> vle (m b) (m t)) ->
+  (forall t, (t < b)%nat -> P t -> vlt (m b) (m t)) ->
+  ((exists t, (t < length vals)%nat /\ P t /\ nth t fails true = false) -> nth b fails true = false) /\
   (nth b fails true = false ->
      (forall t, (t < length vals)%nat -> P t -> nth t fails true = false ->
         if maximize then nth t vals 0 <= nth b vals 0 else nth b vals 0 <= nth t vals 0) /\
      (forall t, (t < b)%nat -> P t -> nth t fails true = false ->
-        if maximize then nth t vals 0 < nth b vals 0 else nth b vals 0 < nth t vals 0) /\
-     (forall t, (t < b)%nat -> P t -> nth t fails false = true ->
-        if maximize then lie < nth b vals 0 else nth b vals 0 < lie)) /\
+        if maximize then nth t vals 0 < nth b vals 0 else nth b vals 0 < nth t vals 0)) /\
   (nth b fails false = true ->
-     (forall t, (t < length vals)%nat -> P t -> nth t fails true = false -> nth t vals 0 == lie) /\
+     (forall t, (t < length vals)%nat -> P t -> nth t fails false = true) /\
      (forall t, (t < b)%nat -> ~ P t)).
 Proof.
-  intros Hl nf Hne sv lie Hb Hmin Hfirst.
-  assert (Hs : forall t, (t < length vals)%nat -> nth t fails true = false -> raw_behind maximize vals fails t = nth t vals 0).
-  { intros t Ht Hf. unfold raw_behind. rewrite <- nth_fails_default by lia. rewrite Hf. reflexivity. }
-  assert (Hf : forall t, nth t fails false = true -> raw_behind maximize vals fails t = lie).
-  { intros t Ef. unfold raw_behind. rewrite Ef. reflexivity. }
-  split.
-  - intros Eb. split; [|split].
-    + intros t Ht HP Et. pose proof (proj1 (scaled_le_iff maximize vals fails b t Hl Hne Hb Ht) (Hmin t Ht HP)) as H.
-      rewrite (Hs b Hb Eb), (Hs t Ht Et) in H. exact H.
-    + intros t Ht HP Et. pose proof (proj1 (scaled_lt_iff maximize vals fails b t Hl Hne Hb ltac:(lia)) (Hfirst t Ht HP)) as H.
-      rewrite (Hs b Hb Eb), (Hs t ltac:(lia) Et) in H. exact H.
-    + intros t Ht HP Et. pose proof (proj1 (scaled_lt_iff maximize vals fails b t Hl Hne Hb ltac:(lia)) (Hfirst t Ht HP)) as H.
-      rewrite (Hs b Hb Eb), (Hf t Et) in H. exact H.
+  intros Hb Hmin Hfirst.
+  assert (Hfail : nth b fails false = true ->
+            (forall t, (t < length vals)%nat -> P t -> nth t fails false = true) /\ (forall t, (t < b)%nat -> ~ P t)).
+  { intros Eb. split.
+    - intros t Ht HP. apply (m_le_failed_is_failed b t Hb Ht Eb). apply Hmin; assumption.
+    - intros t Ht HP. apply (m_failed_not_lt b (m t) Hb Eb). apply Hfirst; assumption. }
+  split; [|split; [|exact Hfail]].
+  - intros (t & Ht & HP & Et). destruct (success_or_failed b Hb) as [E|E]; [exact E|]. exfalso.
+    pose proof (proj1 (Hfail E) t Ht HP) as F. rewrite <- nth_fails_default in F by lia. congruence.
   - intros Eb. split.
-    + intros t Ht HP Et. pose proof (proj1 (scaled_le_iff maximize vals fails b t Hl Hne Hb Ht) (Hmin t Ht HP)) as H.
-      rewrite (Hf b Eb), (Hs t Ht Et) in H.
-      pose proof (raw_behind_range maximize vals fails t Hl Hne Ht) as R. rewrite (Hs t Ht Et) in R. fold nf in R.
-      unfold lie in *. destruct maximize; lra.
-    + intros t Ht HP. pose proof (proj1 (scaled_lt_iff maximize vals fails b t Hl Hne Hb ltac:(lia)) (Hfirst t Ht HP)) as H.
-      rewrite (Hf b Eb) in H.
-      pose proof (raw_behind_range maximize vals fails t Hl Hne ltac:(lia)) as R. fold nf in R.
-      unfold lie in *. destruct maximize; lra.
+    + intros t Ht HP Et. apply (proj1 (m_le_success b t Hb Ht Eb Et)). apply Hmin; assumption.
+    + intros t Ht HP Et. apply (proj1 (m_lt_success b t Hb ltac:(lia) Eb Et)). apply Hfirst; assumption.
 Qed.
+End Masked.
 
-(* the whole endpoint in terms of RAW values *)
-Theorem view_best_raw cs tgt points vals fails maximize k ohs :
+(* the whole endpoint in terms of RAW values: the strict reading *)
+Theorem view_strict cs tgt points vals fails maximize k ohs :
   all_some (map (to_one_hot cs) points) = Some ohs ->
   length vals = length points -> length fails = length points -> (2 <= k < length points)%nat ->
   let nf := select (map negb fails) vals in
   nf <> [] ->
-  let sv := scaled_values maximize vals fails in
+  let mv := masked_values (scaled_values maximize vals fails) fails in
   let spts := map (search_point cs tgt) ohs in
-  let lie := if maximize then lmin nf else lmax nf in
+  let bestv := if maximize then lmax nf else lmin nf in
   exists centres part best,
-    k_center spts (qargmin sv) k = Some (centres, part) /\
+    k_center spts (vargmin mv) k = Some (centres, part) /\
     view cs tgt points vals fails maximize k = Some best /\
     length best = k /\ NoDup best /\ (forall i, In i best -> (i < length points)%nat) /\
     (let b0 := hd O best in
-     (nth b0 fails true = false ->
-        forall t, (t < length points)%nat -> nth t fails true = false ->
-          if maximize then nth t vals 0 <= nth b0 vals 0 else nth b0 vals 0 <= nth t vals 0) /\
-     (nth b0 fails false = true ->
-        forall t u, (t < length points)%nat -> (u < length points)%nat -> nth t fails true = false -> nth u fails true = false ->
-          nth t vals 0 == nth u vals 0) /\
-     ((exists t u, (t < length points)%nat /\ (u < length points)%nat /\ nth t fails true = false /\ nth u fails true = false /\
-                   ~ nth t vals 0 == nth u vals 0) ->
-        nth b0 fails true = false /\
-        forall t, (t < b0)%nat -> nth t fails true = false ->
-          if maximize then nth t vals 0 < nth b0 vals 0 else nth b0 vals 0 < nth t vals 0)) /\
+     In b0 best /\ nth b0 fails true = false /\ nth b0 vals 0 == bestv /\
+     (forall t, (t < length points)%nat -> nth t fails true = false ->
+        if maximize then nth t vals 0 <= nth b0 vals 0 else nth b0 vals 0 <= nth t vals 0) /\
+     (forall t, (t < b0)%nat -> nth t fails true = false ->
+        if maximize then nth t vals 0 < nth b0 vals 0 else nth b0 vals 0 < nth t vals 0)) /\
     forall c, (c < k)%nat ->
       let b := nth c best O in
       nth b part O = c /\
+      ((exists t, (t < length points)%nat /\ nth t part O = c /\ nth t fails true = false) -> nth b fails true = false) /\
       (nth b fails true = false ->
          (forall t, (t < length points)%nat -> nth t part O = c -> nth t fails true = false ->
             if maximize then nth t vals 0 <= nth b vals 0 else nth b vals 0 <= nth t vals 0) /\
          (forall t, (t < b)%nat -> nth t part O = c -> nth t fails true = false ->
-            if maximize then nth t vals 0 < nth b vals 0 else nth b vals 0 < nth t vals 0) /\
-         (forall t, (t < b)%nat -> nth t part O = c -> nth t fails false = true ->
-            if maximize then lie < nth b vals 0 else nth b vals 0 < lie)) /\
+            if maximize then nth t vals 0 < nth b vals 0 else nth b vals 0 < nth t vals 0)) /\
       (nth b fails false = true ->
-         (forall t, (t < length points)%nat -> nth t part O = c -> nth t fails true = false -> nth t vals 0 == lie) /\
+         (forall t, (t < length points)%nat -> nth t part O = c -> nth t fails false = true) /\
          (forall t, (t < b)%nat -> nth t part O <> c)).
 Proof.
-  intros Hoh Hlv Hlf Hk nf Hne sv spts lie.
+  intros Hoh Hlv Hlf Hk nf Hne mv spts bestv.
   destruct (view_spec cs tgt points vals fails maximize k ohs Hoh Hlv Hlf Hk)
     as (centres & part & best & H1 & H2 & H3 & H4 & H5 & H6 & H7).
-  fold sv spts in H1, H6, H7.
+  fold mv spts in H1, H6, H7.
   assert (Hl : length fails = length vals) by lia.
   exists centres, part, best. split; [exact H1|]. split; [exact H2|]. split; [exact H3|]. split; [exact H4|]. split; [exact H5|].
   split.
-  - cbv zeta. rewrite H6.
-    destruct (first_min_scaled_is_best_raw maximize vals fails Hl Hne) as (Hb & _ & Hrange & Hwb & Htie & Hdiff).
-    fold nf sv lie in Hb, Hrange, Hwb, Htie, Hdiff. rewrite Hlv in *. split; [|split].
-    + intros Eb t Ht Et. rewrite <- (nth_fails_default fails (qargmin sv)) in Hwb by lia. rewrite Eb in Hwb.
-      pose proof (Hrange t Ht Et) as R. destruct maximize; lra.
-    + intros Eb. apply Htie. exact Eb.
-    + intros Hd. destruct (Hdiff Hd) as (A & _ & B). split; assumption.
+  - cbv zeta. split; [destruct best; [simpl in H3; lia|left; reflexivity]|]. rewrite H6.
+    pose proof (first_min_is_best_success maximize vals fails Hl Hne) as F. cbv zeta in F. fold nf mv bestv in F.
+    rewrite Hlv in F. destruct F as (_ & F2 & F3 & F4 & F5). repeat split; assumption.
   - intros c Hc. cbv zeta. destruct (H7 c Hc) as (P1 & P2 & P3). split; [exact P1|].
     assert (Hb : (nth c best O < length vals)%nat) by (rewrite Hlv; apply H5, nth_In; lia).
-    pose proof (set_min_scaled_is_best_raw maximize vals fails (fun t => nth t part O = c) (nth c best O) Hl Hne Hb) as S.
-    fold nf sv lie in S. rewrite Hlv in S. exact (S P2 P3).
+    pose proof (set_min_is_best_success maximize vals fails Hl Hne (fun t => nth t part O = c) (nth c best O) Hb) as S.
+    fold mv in S. rewrite Hlv in S. exact (S P2 P3).
+Qed.
+
+(* strict reading of "one of which is the overall best observation": the first returned index is a SUCCESSFUL observation
+   whose raw value no success beats, every earlier success being strictly worse *)
+Theorem overall_best_strict cs tgt points vals fails maximize k ohs :
+  all_some (map (to_one_hot cs) points) = Some ohs ->
+  length vals = length points -> length fails = length points -> (2 <= k < length points)%nat ->
+  (exists i, (i < length points)%nat /\ nth i fails true = false) ->
+  exists best,
+    view cs tgt points vals fails maximize k = Some best /\
+    let b0 := hd O best in
+    In b0 best /\ (b0 < length points)%nat /\ nth b0 fails true = false /\
+    (forall t, (t < length points)%nat -> nth t fails true = false ->
+       if maximize then nth t vals 0 <= nth b0 vals 0 else nth b0 vals 0 <= nth t vals 0) /\
+    (forall t, (t < b0)%nat -> nth t fails true = false ->
+       if maximize then nth t vals 0 < nth b0 vals 0 else nth b0 vals 0 < nth t vals 0).
+Proof.
+  intros Hoh Hlv Hlf Hk (i & Hi & Ei).
+  assert (Hne : select (map negb fails) vals <> []).
+  { intros E. assert (Hin : In (nth i vals 0) (select (map negb fails) vals)).
+    { apply In_select_success. exists i. split; [lia|]. split; [exact Ei|reflexivity]. }
+    rewrite E in Hin. destruct Hin. }
+  destruct (view_strict cs tgt points vals fails maximize k ohs Hoh Hlv Hlf Hk Hne)
+    as (centres & part & best & _ & H2 & _ & _ & H5 & (B1 & B2 & _ & B4 & B5) & _).
+  exists best. split; [exact H2|]. cbv zeta. split; [exact B1|]. split; [apply H5; exact B1|]. split; [exact B2|]. split; assumption.
+Qed.
+
+(* hence the endpoint never answers with failed observations only when a success exists *)
+Theorem never_only_failures cs tgt points vals fails maximize k best :
+  length vals = length points -> length fails = length points -> (2 <= k < length points)%nat ->
+  view cs tgt points vals fails maximize k = Some best ->
+  (exists i, (i < length points)%nat /\ nth i fails true = false) ->
+  exists i, In i best /\ nth i fails true = false.
+Proof.
+  intros Hlv Hlf Hk Hv Hs. unfold view in Hv.
+  destruct (all_some (map (to_one_hot cs) points)) as [ohs|] eqn:Hoh; [|discriminate].
+  destruct (overall_best_strict cs tgt points vals fails maximize k ohs Hoh Hlv Hlf Hk Hs) as (best' & Hv' & B1 & _ & B2 & _).
+  unfold view in Hv'. rewrite Hoh in Hv'. rewrite Hv in Hv'. injection Hv' as <-.
+  exists (hd O best). split; assumption.
 Qed.
